@@ -8,25 +8,32 @@ import conc
 import driver
 
 PROPERTIES_FILE = "Properties/Properties_C15.v"
-COQ_DEPS = ["Proofs/SrcData_proofs.vo"]
+COQ_DEPS = ["Proofs/SrcData_proofs.vo", "Proofs/SrcLane_proofs.vo"]
 GEN_MODULES = ["Gen_srcdata", "Gen_dqstate"]
 LEVEL = "proof"
 TRUSTED = [
-    "Model/SrcData.v is hand-written control flow (dispatch_source_merge_data, the data clause of _dispatch_source_wakeup and "
-    "_dispatch_source_invoke2, _dispatch_source_latch_and_call for dst_action = PASS_DATA) around generated pieces: the atomic-site "
-    "lists of merge_data / latch_and_call / get_data, the flag and dq_state constants, and the rmw body of _dispatch_queue_wakeup "
-    "(Gen_dqstate.wakeup_loop) with which the model computes the word a merge's wakeup commits and whether it is DIRTY; tied by "
-    "(a) site-list equalities checked by Coq, (b) per-thread trace conformance of every recorded merge thread (full trace on "
-    "ds_pending_data, dq_atomic_flags, dq_state) and of every thread that took the source's drain lock or touched "
-    "ds_pending_data (projection on ds_pending_data + handler callouts + lock/unlock/renew events derived from that thread's own "
-    "dq_state writes) against SrcData.tstep, (c) API-level oracle on the same runs",
-    "the source's lane is abstracted to a ghost drain-lock owner, a suspend counter and one 'enqueued or dirty' bit; that the "
-    "event handler is only called under the drain lock of the source (a serial lane: _dispatch_source_invoke2 is called only from "
-    "_dispatch_queue_class_invoke after _dispatch_queue_drain_try_lock) and that an enqueued source is eventually invoked by "
-    "its target queue is the subject of C01/C02, here validated by the stress oracle (in-handler flag, handler intervals, and "
-    "'latch only between this thread's own lock and unlock writes' on every recorded trace), not proved",
-    "atomicity: each os_atomic_* operation is one step; sequentially consistent interleaving (all data operations are relaxed "
-    "RMWs on one word, whose modification order is total in C11 as well)",
+    "two hand-written models of the same source lines (dispatch_source_merge_data, the data clause of _dispatch_source_wakeup and "
+    "_dispatch_source_invoke2, _dispatch_source_latch_and_call for dst_action = PASS_DATA): (A) Model/SrcData.v, whose thread "
+    "automaton tstep is what every recorded thread trace is replayed through, and (B) Model/SrcLane.v, the same protocol on the "
+    "source's real dq_state word in the style of Model/SLane.v (adds _dispatch_queue_class_invoke's lock / unlock / DIRTY retry, "
+    "_dispatch_queue_invoke_finish, _dispatch_lane_suspend / _dispatch_lane_resume(is_source)); exclusivity and the "
+    "no-stranding clauses are proved on (B), the data clauses on both",
+    "ties of (A): site-list equalities (merge_data, latch_and_call, get_data) checked by Coq; per-thread trace conformance: merge "
+    "threads in full (ds_pending_data, dq_atomic_flags, dq_state; the wakeup's committed word must be an output of the generated "
+    "wakeup_loop with MAKE_DIRTY|CONSUME_2); every other thread projected on ds_pending_data, handler marks and its own successful "
+    "dq_state writes, which must be outputs of the generated bodies WITH THE PARAMETERS (B) USES: lock = drain_try_lock(self, "
+    "floor in 0..15) returning owned = IN_BARRIER+WIDTH_INTERVAL+ENQUEUED, unlock = drain_try_unlock(owned, done) or "
+    "invoke_finish_loop(owned), renew = xor DIRTY on a dirty word, suspend-field writes = suspend_loop / resume_loop(is_source=1) / "
+    "resume_activate_loop; the exchange and the handler marks are accepted only between the thread's own lock and unlock",
+    "ties of (B): every dq_state transition is a generated body (field-level specifications Proofs/Lane_fields.v, SLaneS_fields.v, "
+    "resume_src_fields); its control flow is the same case split as (A) but the two are NOT related by a machine-checked "
+    "refinement, and recorded traces are not replayed through (B) itself: modelled-not-verified beyond the word functions and "
+    "their parameters",
+    "boundary of (B): the target queue is a counter of how many times the source sits in it and any idle thread may pop it; that "
+    "the target queue eventually invokes what sits in it is C01 for the target.  Scope of (B): activated, installed source; up to "
+    "62 nested suspensions (no side counter), no over-resume; cancellation only as the flag (life cycle: C16)",
+    "atomicity: each os_atomic_* operation / each successful compare-exchange of an rmw loop is one step; sequentially consistent "
+    "interleaving (all data operations are relaxed RMWs on one word, whose modification order is total in C11 as well)",
     "dispatch_source_get_data inside the handler returns the ds_data stored by latch_and_call (checked on every recorded call)",
 ]
 ASSUMPTIONS = ["fair scheduling of the target queue's workers for the 'delivered afterwards' clause (the theorem shows that "
@@ -78,9 +85,11 @@ def word_after(e):
 def project(evs, C, stats):
     """one thread's events on one source -> the trace fed to SrcData.tstep.
     Inside a merge call (DVU_CALL..DVU_RET) everything is kept.  Outside: events on ds_pending_data and the handler marks are
-    kept; the thread's own dq_state writes are turned into LOCK / UNLOCK a / RELOOP when they change the drain owner from 0 to
-    this thread, from this thread to 0, or clear DIRTY under its ownership; everything else (flag reads, dq_state traffic of
-    the lane protocol) is dropped."""
+    kept; the thread's own successful dq_state writes are turned into LOCK / UNLOCK / RELOOP / HIWORD events carrying the word
+    before and after, when they change the drain owner from 0 to this thread, from this thread to 0, clear DIRTY under its
+    ownership, or change the suspend field; the automaton checks each against the generated bodies (drain_try_lock,
+    drain_try_unlock / invoke_finish with the serial-drain `owned`, xor DIRTY, suspend / resume(is_source) / activate
+    loops).  Everything else (flag reads, loads and failed attempts on dq_state, wakeups outside merge_data) is dropped."""
     out, inmerge = [], False
     for e in evs:
         if e.kind == 100:
@@ -104,18 +113,22 @@ def project(evs, C, stats):
             live = C["DISPATCH_QUEUE_ENQUEUED"] | C["DISPATCH_QUEUE_ENQUEUED_ON_MGR"] | C["DISPATCH_QUEUE_DIRTY"]
             syn = None
             if oo == 0 and no == own:
-                syn = (120, 0)
+                syn = 120
                 stats["lock"] += 1
             elif oo == own and no == 0:
-                syn = (121, 1 if (new & live) else 0)
+                syn = 121
                 stats["unlock_live" if (new & live) else "unlock_clean"] += 1
             elif oo == own and no == own and (old & C["DISPATCH_QUEUE_DIRTY"]) and not (new & C["DISPATCH_QUEUE_DIRTY"]):
-                syn = (122, 0)
+                syn = 122
                 stats["renew_dirty"] += 1
             elif oo != no and (oo == own or no == own):
-                syn = (123, 0)   # an ownership change the model has no event for: will be rejected
+                syn = 123   # an ownership change the model has no event for: will be rejected
+            elif (old ^ new) >> 55:
+                syn = 124   # suspend-count field written: dispatch_suspend / dispatch_resume / activation
+                stats["suspend_field_writes"] += 1
             if syn:
-                x = conc.Ev([e.thr, e.tid, e.seq, syn[0], 0, e.obj, 0, 0, syn[1], 0, 1, e.line])
+                # the derived event carries the words: the automaton checks them with the generated bodies
+                x = conc.Ev([e.thr, e.tid, e.seq, syn, 0, e.obj, 0, 0, old, new, 1, e.line])
                 out.append(x)
     return out
 
@@ -133,7 +146,7 @@ def analyse(text, label, C, runinfo):
                             "wakeup_commits_enqueue", "wakeup_commits_dirty_only", "wakeup_not_installed", "lock", "unlock_live",
                             "unlock_clean", "renew_dirty", "latches", "latch_zero_early_return", "handler_calls",
                             "post_handler_pending_requeue", "suspends", "resumes", "merges_during_handler",
-                            "merges_while_suspended_approx", "drain_without_latch")}
+                            "merges_while_suspended_approx", "drain_without_latch", "suspend_field_writes")}
     for k in KINDS:
         stats["rounds_" + k] = 0
     for k in TARGETS:
@@ -252,7 +265,7 @@ def analyse(text, label, C, runinfo):
                     stats["post_handler_pending_requeue"] += 1
                 if e.kind == 121 and i >= 2 and tr[i - 1].kind == 1 and tr[i - 2].kind == 120:
                     stats["drain_without_latch"] += 1
-            traces.append((info["kind"], tr, rd, thr))
+            traces.append((info["kind"] + 4 * (tr[0].tid & C["DISPATCH_QUEUE_DRAIN_OWNER_MASK"]), tr, rd, thr))
     return fails, traces, stats
 
 
@@ -275,14 +288,29 @@ def correspond(ctx):
         for k, v in st.items():
             total[k] = total.get(k, 0) + v
     res, err = [], None
-    for attempt in range(2):
-        try:
-            res = conc.coq_conform("c15_conf", ["Word", "Conc", "Gen_dqstate", "Gen_srcdata", "SrcData"], "conform",
-                                   [(sv, t) for (sv, t, _, _, _) in alltr], chunk=250)
-            err = None
+    pairs = [(sv, t) for (sv, t, _, _, _) in alltr]
+    nparts = 4
+    size = (len(pairs) + nparts - 1) // nparts if pairs else 1
+    parts = [pairs[i:i + size] for i in range(0, len(pairs), size)]
+
+    def conf(ix):
+        last = None
+        for attempt in range(2):   # keep the API-level failures of these runs even if the Coq evaluation cannot be done
+            try:
+                return conc.coq_conform("c15_conf_p%d" % ix, ["Word", "Conc", "Gen_dqstate", "Gen_srcdata", "SrcData"], "conform",
+                                        parts[ix], chunk=250), None
+            except RuntimeError as ex:
+                last = str(ex)
+        return None, last
+    from concurrent.futures import ThreadPoolExecutor
+    with ThreadPoolExecutor(max_workers=nparts) as ex:
+        outs = list(ex.map(conf, range(len(parts))))
+    for r_, e_ in outs:
+        if e_ is not None:
+            err = e_
+            res = []
             break
-        except RuntimeError as ex:   # keep the API-level failures of these runs even if the Coq evaluation cannot be done
-            err = str(ex)
+        res += r_
     if err is not None:
         mism.append({"what": "trace conformance could not be evaluated in Coq", "detail": err[-1500:]})
     for (i, idle), (sv, t, rd, thr, seed) in zip(res, alltr):
